@@ -40,6 +40,8 @@ def junk_items(rng, spa):
         ("padded-nul", good(b"STATP\x01\x01\x2c\x11\x22") + b"\x00\x00\x00"), ("padded-space", good(b"STATP\x01\x01\x2c\x11\x23") + b" "),
         ("padded-crlf", good(b"STATP\x01\x01\x2c\x11\x24") + b"\r\n"), ("prefixed-nul", b"\x00" + good(b"STATP\x01\x01\x2c\x11\x25")),
         ("truncated-frame", good(b"STATP\x01\x01\x2c\x11\x26")[:-3]),
+        # accepted by its verb, but its content cannot be digested (announces two change records, carries one)
+        ("poison-statp", good(b"STATP\x02\x01\x2c\x11\x22")),
         ("raw-unframed-unknown", b"HELLOworld"), ("hello", b"<HELLO>1</HELLO>"),
         ("wcerr", good(b"WCERR")), ("wcerr", good(b"WCERR")), ("statp", good(b"STATP\x01\x03\xf0\x00\x01")),
     ]
@@ -187,10 +189,27 @@ def scenario(rng, rank, stalls=False, flood=0, starve=False):
                     s.inject(frame(sid, cid, b"RFERR"), delay=0.013 * (n_rf + 1))
                     n_rf += 1
                 s.advance(0.08)
+            # ... and the same traffic is no sign of life either: once no ping has been answered for more than two
+            # ping periods the client does not consider the spa responsive, whatever else reaches the socket
+            last_ok = max([e["t"] for e in s.events if e["ev"] == "RUNNING_PING_RECEIVED"], default=None)
+            spa_ = sc.spa
+            sign_of_life = False
+            if last_ok is not None and t_call.done():
+                lim = last_ok + 2 * GeckoConfig.PING_FREQUENCY_IN_SECONDS + 3.0
+                while s.loop.time() < lim and s.loop.time() - t0 < 400:
+                    s.inject(rng.choice(foreign))
+                    s.advance(0.5)
+                if s.loop.time() >= lim and s.man._spa is spa_:
+                    try:
+                        sign_of_life = bool(spa_.is_responding_to_pings)
+                    except Exception:  # noqa
+                        sign_of_life = False
             s.net.s2c = None
             s.advance(2.0)
             if not t_call.done():
                 pending.append(t_call.get_name())
+            if sign_of_life:
+                pending.append("traffic-that-is-not-for-this-client-counts-as-a-sign-of-life")
         # final phase: RF errors (they take the connection out of CONNECTED) followed by more traffic
         if rng.random() < 0.5:
             sid, cid = sc.spa.descriptor.identifier, sc.spa.client_id
@@ -276,7 +295,8 @@ def run(ctx):
             ctx.violation({"clause": "received-datagram-never-entered-the-queue"},
                           {"rank": lg["rank"], "delivered_to_endpoint": lg["delivered"], "entered_the_queue": lg["puts"], "flood": lg["flood"]})
         if lg.get("pending"):
-            ctx.violation({"clause": "request-kept-waiting-by-traffic-that-is-not-for-this-client"},
+            ctx.violation({"clause": ("misaddressed-traffic-changed-state" if any("sign-of-life" in x for x in lg["pending"])
+                                      else "request-kept-waiting-by-traffic-that-is-not-for-this-client")},
                           {"rank": lg["rank"], "pending": lg["pending"], "tail": lg["ev"][-10:]})
     ev.cov["flood_scenarios"] = sum(1 for lg in logs if lg["flood"])
     # junk during the handshake, under the stable wake orders (the adversarial per-tick order is not used
